@@ -184,4 +184,45 @@ theorem findPreferred_hit_iff (C : Ctx) (q : ApiReq) (l : List Str) (p : Prod) :
                 · rw [hk] at h; cases h
                   rw [hf] at h'; cases h'
 
+/-! ## tag files on the VRO -/
+
+/-- without tag files the extended walk is the walk -/
+theorem walkF_nil (C : Ctx) (q : ApiReq) (r : Req) (vro : List Str) :
+    walkF C [] q r vro = (match walk C r vro with | .error e => .error (.walk e) | .ok o => .ok o) := by
+  induction vro with
+  | nil => rfl
+  | cons e post ih =>
+    have hl : (if isDirective r e then none else lookupKey e ([] : List (Str × Str))) = none := by
+      split <;> rfl
+    simp only [walkF, walk, lookupEntryF, hl]
+    cases lookupEntry C r e post with
+    | error err => rfl
+    | ok o =>
+      cases o with
+      | skip => simpa using ih
+      | abort => rfl
+      | hit p reason => rfl
+
+theorem findF_nil (C : Ctx) (q : ApiReq) (r : Req) (vro : List Str) :
+    findF C [] q r vro = (match find C r vro with | .error e => .error (.walk e) | .ok o => .ok o) := by
+  unfold findF find
+  rw [walkF_nil]
+  cases walk C r vro with
+  | error err => rfl
+  | ok o => cases o <;> rfl
+
+/-- an entry that names a tag file (and is not a directive) answers as the file says: the version listed for the product,
+from the first stack declaring it — reason: the entry; "not listed" is "continue"; an error leaves the walk -/
+theorem lookupEntryF_file (C : Ctx) (files : List (Str × Str)) (q : ApiReq) (r : Req) (e : Str) (post : List Str)
+    (content : Str) (hd : isDirective r e = false) (hf : lookupKey e files = some content) :
+    lookupEntryF C files q r e post =
+      match findTaggedFromFile C q content with
+      | .error err => .error err
+      | .ok (some p) => .ok (.hit p e)
+      | .ok none => .ok .skip := by
+  simp only [lookupEntryF, hd, Bool.false_eq_true, if_false, hf]
+  cases findTaggedFromFile C q content with
+  | error err => rfl
+  | ok o => cases o <;> rfl
+
 end EupsModel.Vro
